@@ -186,8 +186,8 @@ class acoustic_1d_imex(Problem):
         """
 
         f = self.dtype_f(self.init)
-        f.impl = self.__eval_fimpl(u, t)
-        f.expl = self.__eval_fexpl(u, t)
+        f.impl[:] = self.__eval_fimpl(u, t)
+        f.expl[:] = self.__eval_fexpl(u, t)
 
         self.work_counters['rhs']()
         return f
